@@ -37,7 +37,10 @@ Record case_t := Case {
   c_threads : list (list action);   (* only the actions that reported success concurrently *)
   c_conc_mem : obs; c_conc_reopen : obs;
   c_serial_mem : obs; c_serial_reopen : obs;
-  c_bad : bool                      (* stall, panic, or an error opening/closing the database *)
+  c_bad : bool;                     (* stall, panic, or an error opening/closing the database *)
+  c_commuting : bool                (* the generator built the threads to be cross-independent (the hypothesis
+                                       of C09_serialisable); false for deliberately conflicting scenarios, where
+                                       c_threads is in the serial order the harness found to explain the run *)
 }.
 
 Definition model_final (c : case_t) : store :=
@@ -46,7 +49,7 @@ Definition model_final (c : case_t) : store :=
 (* correspondence: the generator respects the theorem's hypothesis and the model predicts the
    implementation's SERIAL outcome *)
 Definition mismatch (c : case_t) : bool :=
-  negb (cross_independent (c_threads c)) ||
+  (c_commuting c && negb (cross_independent (c_threads c))) ||
   negb (bool_decide (model_final c = obs_to_store (c_serial_mem c))).
 
 (* the property, on implementation observations only *)
